@@ -82,23 +82,33 @@ def auto_title_segments(files):
     object-typed schema in the raw files."""
     out = []
 
+    name_maps = ("properties", "patternProperties", "definitions", "dependencies")
+
     def walk(node, trail):
-        if isinstance(node, dict):
-            types = node.get("type")
-            is_obj = types == "object" or (isinstance(types, list) and "object" in types)
-            if is_obj and not node.get("title"):
-                segs = [seg for seg in trail]
-                while segs and (segs[-1] in ("items", "anyOf", "oneOf", "allOf", "not") or segs[-1].isdigit()):
-                    segs.pop()
-                if segs:
-                    out.append(segs[-1])
-            for key, val in node.items():
-                if key in ("const", "enum", "default"):
-                    continue
-                walk(val, trail + [str(key)])
-        elif isinstance(node, list):
+        # `node` sits at a schema position; the walk is by position, since members of the name maps may be
+        # spelled like keywords (a property called "default" is a schema, the keyword `default` is a literal)
+        if isinstance(node, list):
             for idx, val in enumerate(node):
                 walk(val, trail + [str(idx)])
+            return
+        if not isinstance(node, dict):
+            return
+        types = node.get("type")
+        is_obj = types == "object" or (isinstance(types, list) and "object" in types)
+        if is_obj and not node.get("title"):
+            segs = list(trail)
+            while segs and (segs[-1] in ("items", "anyOf", "oneOf", "allOf", "not") or segs[-1].isdigit()):
+                segs.pop()
+            if segs:
+                out.append(segs[-1])
+        for key, val in node.items():
+            if key in ("const", "enum", "default"):
+                continue
+            if key in name_maps and isinstance(val, dict):
+                for name, sub in val.items():
+                    walk(sub, trail + [str(key), str(name)])
+            else:
+                walk(val, trail + [str(key)])
 
     for body in files.values():
         walk(body, [])
@@ -173,18 +183,9 @@ def variant_of(doc, tag):
     root = files[entry]
     titles = []
 
-    def collect(node, depth=0):
-        if isinstance(node, dict):
-            if node.get("type") == "object" and isinstance(node.get("title"), str) and depth > 0:
-                titles.append(node["title"])
-            for key, val in node.items():
-                if key not in ("const", "enum", "default"):
-                    collect(val, depth + 1)
-        elif isinstance(node, list):
-            for val in node:
-                collect(val, depth + 1)
-
-    collect(root)
+    for node in refmodel.walk_schemas(root):
+        if node is not root and node.get("type") == "object" and isinstance(node.get("title"), str):
+            titles.append(node["title"])
     if not titles or not isinstance(root.get("properties"), dict):
         return None
     extra = {"type": "object", "title": titles[-1], "properties": {"vvv": {"type": "integer"}}, "required": ["vvv"]}
